@@ -279,7 +279,8 @@ static void write_elf_text_and_data(
   int alignment)
 {
   const char *name = ".text";
-  uint32_t i;
+  // 64 bit so the loop ends when high_address is 0xffffffff.
+  uint64_t i;
 
   elf->text_addr = memory->low_address;
   string_table_append(elf, name);
